@@ -545,6 +545,86 @@ def utf8_tables(chk):
         chk.violation(R, inst, 'src/x509/x509_minimal.c', 'rows read from the bytecode: %s; expected %s' % (erows, eref), key=R + ' enc rows')
 
 
+def validity_range_orderings(chk):
+    """"validity periods contain the validation time": the native check-validity-range compares (day, second) pairs and touches them only
+    through comparisons, so its verdict is a function of four orderings - vd ? nbd, vs ? nbs, vd ? nad, vs ? nas - 81 cases in all.
+    The branch structure of the native (in br_x509_minimal_run) is walked for each case and the constant it selects for r compared
+    with the lexicographic definition: -1 iff (vd, vs) < (nbd, nbs), else +1 iff (vd, vs) > (nad, nas), else 0."""
+    from ..sym import var_names
+    R = 'validity-range-orderings'
+    src = 'src/x509/x509_minimal.c'
+    u = build.load_unit(src)
+    F = next((irf.Func(u, f) for f in u['functions'] if f['name'] == 'br_x509_minimal_run' and f.get('blocks')), None)
+    if F is None:
+        raise AnalysisBroken('br_x509_minimal_run vanished')
+    names = var_names(F)
+    VARS = ('vd', 'vs', 'nbd', 'nbs', 'nad', 'nas')
+
+    def nm(o):
+        o = F.strip_casts(o)
+        return names.get((o['k'], o['v'])) if o['k'] in ('i', 'a') else None
+    cmps = [i for i in F.insts.values() if i['op'] == 'icmp' and nm(i['ops'][0]) in VARS and nm(i['ops'][1]) in VARS]
+    if len(cmps) < 4:
+        raise AnalysisBroken('check-validity-range: %d comparisons between the date variables found' % len(cmps))
+    first = min(cmps, key=lambda i: F.order[i['id']])
+    bmap = {b['id']: b for b in F.blocks}
+    rphis = [i for i in F.insts.values() if i['op'] == 'phi' and names.get(('i', i['id'])) == 'r']
+    PAIR = {('vd', 'nbd'): 0, ('vs', 'nbs'): 1, ('vd', 'nad'): 2, ('vs', 'nas'): 3}
+
+    def truth(c, orders):
+        a, b = nm(c['ops'][0]), nm(c['ops'][1])
+        pred = c['pred']
+        if (a, b) in PAIR:
+            o = orders[PAIR[(a, b)]]
+        elif (b, a) in PAIR:
+            o = {'<': '>', '=': '=', '>': '<'}[orders[PAIR[(b, a)]]]
+        else:
+            return None
+        return {'ult': o == '<', 'slt': o == '<', 'ugt': o == '>', 'sgt': o == '>', 'eq': o == '=', 'ne': o != '=',
+                'ule': o != '>', 'sle': o != '>', 'uge': o != '<', 'sge': o != '<'}[pred]
+
+    def walk(orders):
+        prev, cur = None, F.block_of[first['id']]
+        for _ in range(40):
+            blk = bmap[cur]
+            for i in blk['insts']:
+                if i['op'] == 'phi' and i in rphis and prev is not None:
+                    for bb, o in zip(i['inb'], i['ops']):
+                        if bb == prev and o['k'] == 'c':
+                            return o['v']
+                    return ('?', 'r is not a constant on this path')
+            t = blk['insts'][-1]
+            if t['op'] != 'br':
+                return ('?', 'left the comparison region')
+            if len(t['ops']) == 1:
+                prev, cur = cur, t['ops'][0]['v']
+                continue
+            c = F.insts[t['ops'][0]['v']] if t['ops'][0]['k'] == 'i' else None
+            tv = truth(c, orders) if c is not None and c['op'] == 'icmp' else None
+            if tv is None:
+                return ('?', 'a branch that is not a comparison of the date variables')
+            prev, cur = cur, (t['ops'][2]['v'] if tv else t['ops'][1]['v'])
+        return ('?', 'walk did not end')
+    bad = []
+    n = 0
+    import itertools
+    for orders in itertools.product('<=>', repeat=4):
+        o1, o2, o3, o4 = orders
+        want = -1 if (o1 == '<' or (o1 == '=' and o2 == '<')) else 1 if (o3 == '>' or (o3 == '=' and o4 == '>')) else 0
+        got = walk(orders)
+        n += 1
+        if got != want:
+            bad.append((orders, want, got))
+    inst = 'check-validity-range: the verdict is the lexicographic comparison of (day, second) with notBefore / notAfter in all 81 ordering cases'
+    if bad:
+        o, w, g = bad[0]
+        chk.violation(R, inst, F.where(first), '%d of 81 cases differ; e.g. vd %s nbd, vs %s nbs, vd %s nad, vs %s nas: expected %d, the code yields %s - %s' % (
+            len(bad), o[0], o[1], o[2], o[3], w, g, 'a certificate outside its validity period is accepted' if w != 0 and g == 0 else 'a valid certificate is rejected / misclassified'),
+            key=R)
+    else:
+        chk.ok(R, inst, F.where(first), '81 ordering cases walked through %d comparisons' % len(cmps))
+
+
 def oid_table(chk):
     """The certificate engines recognise algorithms, key types, curves, name attributes and extensions by comparing DER object
     identifiers with constants of the bytecode data block.  One wrong byte there and an extension silently stops being recognised
@@ -735,6 +815,7 @@ def run(tier):
     calendar_table(chk)
     oid_table(chk)
     utf8_tables(chk)
+    validity_range_orderings(chk)
     ca_check_unavoidable(chk)
     min_rsa_size_signed(chk)
     from . import c11 as _c11
